@@ -78,7 +78,7 @@ Local Notation emitsB := (emitsB ts).
 Local Notation tok_at := (AstWriter.tok_at ts).
 
 Definition dom (x : tree) : bool :=
-  no_paren_prefix x && no_if_do ts x && no_empty_short_else x && strict x.
+  no_paren_prefix x && no_if_do ts x && strict x.
 
 Definition code_at (i : Z) : list Z := match tok_at i with Some t => tcode t | None => [] end.
 Definition lcodes (l : list Z) : list (Z * list Z) := map (fun i => (i, code_at i)) l.
@@ -209,7 +209,7 @@ Proof. intros H. inversion H; subst. split; [reflexivity | assumption]. Qed.
 Lemma dom_node_in tag s e sh fs y : dom (Node tag s e sh fs) = true -> In y fs -> dom y = true.
 Proof.
   unfold dom. intros H Hin. repeat (apply andb_true_iff in H; destruct H as [H ?]).
-  cbn [no_paren_prefix no_if_do no_empty_short_else strict] in *.
+  cbn [no_paren_prefix no_if_do strict] in *.
   repeat match goal with H : _ && _ = true |- _ => apply andb_true_iff in H; destruct H as [? H] end.
   repeat match goal with H : forallb _ fs = true |- _ => rewrite forallb_forall in H; specialize (H y Hin) end.
   repeat (apply andb_true_iff; split); assumption.
@@ -218,7 +218,7 @@ Qed.
 Lemma dom_lst_in l y : dom (Lst l) = true -> In y l -> dom y = true.
 Proof.
   unfold dom. intros H Hin. repeat (apply andb_true_iff in H; destruct H as [H ?]).
-  cbn [no_paren_prefix no_if_do no_empty_short_else strict] in *.
+  cbn [no_paren_prefix no_if_do strict] in *.
   repeat match goal with H : forallb _ l = true |- _ => rewrite forallb_forall in H; specialize (H y Hin) end.
   repeat (apply andb_true_iff; split); assumption.
 Qed.
@@ -586,6 +586,7 @@ Ltac chain :=
   | |- WriterCursor.emitsB _ _ (spaces _ _ >> advance_emit _) _ _ _ => leaf_step
   | |- WriterCursor.emitsB _ _ (spaces _ _ >> with_cur _ _) _ _ _ => leaf_step
   | |- WriterCursor.emitsB _ _ (if_pairs _ _ _ _ _ _ >> _) _ _ _ => idtac
+  | |- WriterCursor.emitsB _ _ (dropped_else _ _ _) _ _ _ => idtac
   | |- WriterCursor.emitsB _ _ (_ >> _) _ _ _ => eapply emitsB_seq; [leaf_step | chain]
   | |- WriterCursor.emitsB _ _ _ _ _ _ => leaf_step
   end.
@@ -861,6 +862,71 @@ Proof.
     unfold lcodes. cbn [flat_map leaves app map]. rewrite ?app_nil_r. rewrite ?map_app. cbn [map app]. rewrite <- ?app_assoc. cbn [app]. reflexivity.
 Qed.
 
+(* ------------------------------------------------------------------ the dropped else of a one-line if *)
+Lemma skip_trivia_idx_to l : forall p hi i, 0 <= p -> (forall k, nth_error l k = nth_error ts (Z.to_nat p + k)) ->
+  p <= i -> sigb i = true -> (forall j, p <= j < i -> sigb j = false) -> i < hi -> skip_trivia_idx l p hi = i.
+Proof.
+  induction l as [|t r IH]; intros p hi i Hp Hl Hpi Hs Hn Hhi.
+  - exfalso. destruct (sigb_tok ts i Hs) as (u & Hu & _). unfold AstWriter.tok_at in Hu. destruct (i <? 0) eqn:E0; [discriminate|].
+    specialize (Hl (Z.to_nat i - Z.to_nat p)%nat). replace (Z.to_nat p + (Z.to_nat i - Z.to_nat p))%nat with (Z.to_nat i) in Hl by lia.
+    rewrite Hu in Hl. destruct (Z.to_nat i - Z.to_nat p)%nat; discriminate.
+  - assert (Htp : tok_at p = Some t).
+    { unfold AstWriter.tok_at. destruct (p <? 0) eqn:E0; [lia|]. rewrite <- (Nat.add_0_r (Z.to_nat p)), <- Hl. reflexivity. }
+    cbn [skip_trivia_idx]. destruct (Z.eq_dec p i) as [->|Hne].
+    + destruct (sigb_tok ts i Hs) as (u & Hu & Htr). assert (u = t) by congruence. subst u. rewrite Htr, andb_false_r. reflexivity.
+    + assert (Hsp : sigb p = false) by (apply Hn; lia).
+      unfold ParserProofs.sigb in Hsp. rewrite tok_at_same, Htp in Hsp. apply negb_false_iff in Hsp. rewrite Hsp.
+      assert (Hlt : (p <? hi) = true) by lia. rewrite Hlt. cbn [andb].
+      apply IH; try lia; try assumption.
+      * intros k. replace (Z.to_nat (p + 1) + k)%nat with (Z.to_nat p + S k)%nat by lia. rewrite <- Hl. reflexivity.
+      * intros j Hj. apply Hn. lia.
+Qed.
+
+Lemma skip_trivia_idx_at l p : skip_trivia_idx l p p = p.
+Proof. destruct l; cbn [skip_trivia_idx]; [reflexivity|]. rewrite Z.ltb_irrefl. reflexivity. Qed.
+
+Lemma dropped_none tag s e sh fs pairs vt vs ve vsh vfs b :
+  last pairs (Lst []) = Lst [Node vt vs ve vsh vfs; b] ->
+  emitsB e (dropped_else ts (Node tag s e sh fs) pairs) e e [].
+Proof.
+  intros Hl st Hn. pose proof (nearB_tight ts _ _ _ Hn (Z.le_refl e)) as Hp. exists st, [].
+  unfold dropped_else. rewrite Hl. unfold with_st. cbn [node_end]. rewrite Hp, skip_trivia_idx_at, Z.ltb_irrefl. cbn [andb].
+  split; [destruct (AstWriter.tok_at ts e); reflexivity|]. split; [first [reflexivity | exact Hp]|]. split; [lia|]. split; [reflexivity|]. split; [reflexivity | constructor].
+Qed.
+
+Lemma dropped_skip tag s e sh fs pairs b c : last pairs (Lst []) = Lst [PNone; b] ->
+  emitsB c (dropped_else ts (Node tag s e sh fs) pairs) c c [].
+Proof. intros Hl. unfold dropped_else. rewrite Hl. apply emitsX_skip. Qed.
+
+Lemma dropped_else_ok tag s e sh fs pairs vt vs ve vsh vfs b c i c' L :
+  last pairs (Lst []) = Lst [Node vt vs ve vsh vfs; b] ->
+  [i] = sig c (i + 1) -> i < e -> mtok (pkw "else"%bs) i ->
+  emitsB c (get_text ts (Node tag s e sh fs) "else"%bs >> semis ts (Node tag s e sh fs)) c c' L ->
+  emitsB c (dropped_else ts (Node tag s e sh fs) pairs) c c' L.
+Proof.
+  intros Hl Hi He Hm H st Hn. pose proof (nearB_tight ts _ _ _ Hn (Z.le_refl c)) as Hp.
+  destruct (first_sig_inv ts _ _ Hi) as (A1 & A2 & A3). destruct Hm as (t & Ht & Hmt). rewrite tok_at_same in Ht.
+  unfold dropped_else. rewrite Hl. unfold with_st. cbn [node_end]. rewrite Hp.
+  rewrite (skip_trivia_idx_to (skipn (Z.to_nat c) ts) c e i); try lia; try assumption;
+    [| destruct Hn; lia | intros k; apply skipn_nth_ts].
+  rewrite Ht. assert (Hlt : (i <? e) = true) by lia. rewrite Hlt.
+  assert (Hel : tok_eqb t (mkTok CKeyword 0 "else"%bs "else"%bs) = true) by exact Hmt. rewrite Hel. cbn [andb].
+  apply H, Hn.
+Qed.
+
+(* a block without statements holds semicolons only *)
+Lemma no_stats_semis b : shaped cChunk b -> chunk_has_stats b = false ->
+  exists s e l, b = Node tChunk s e false [Lst l] /\ Forall semi_leaf l /\ semi_free ts e.
+Proof.
+  intros Hb Hn. inversion Hb as [s e l Hl Hf| | | | | | | | | | | | | | | | | | | | | | | | | | | | | | | | | | | | | | | | | | | | | | | | | | | | |]; subst.
+  exists s, e, l. split; [reflexivity|]. split; [|exact Hf].
+  unfold chunk_has_stats, first_field in Hn. cbn [strip_paren visible filter is_hidden negb] in Hn.
+  clear Hb Hf. induction Hl as [|x l Hx Hl IH]; [constructor|].
+  cbn [visible filter] in Hn. destruct Hx as [i Hi | x Hx].
+  - cbn [is_hidden negb] in Hn. constructor; [exists i; split; [reflexivity | exact Hi] | apply IH; exact Hn].
+  - rewrite (shaped_not_hidden _ _ _ _ _ Hx) in Hn. cbn [negb] in Hn. discriminate Hn.
+Qed.
+
 Theorem walk_aligned : forall m k x, (tsize x <= m)%nat -> shaped k x -> dom x = true -> wok k x.
 Proof.
   induction m as [|m IH]; intros k x Hsz Hsh Hdom; [destruct x; cbn [tsize] in Hsz; lia|].
@@ -1046,9 +1112,7 @@ Proof.
   (* if (c) ... [else ...]  on one line *)
   pose proof Hdom as Hd0. unfold dom in Hd0. repeat (apply andb_true_iff in Hd0; destruct Hd0 as [Hd0 ?]).
   match goal with H : strict _ = true |- _ => cbn in H; rename H into Hst end.
-  match goal with H : no_empty_short_else _ = true |- _ => cbn in H; rename H into Hne end.
   apply andb_true_iff in Hst. destruct Hst as [Hst _]. apply andb_true_iff in Hst. destruct Hst as [Hcp _].
-  apply andb_true_iff in Hne. destruct Hne as [Hne _]. apply negb_true_iff in Hne.
   destruct cond as [|p [|q cond']]; cbn [app] in *;
     [destruct b; discriminate Hcp | | destruct p; try discriminate Hcp; destruct cond'; discriminate Hcp].
   destruct p; try discriminate Hcp.
@@ -1061,17 +1125,30 @@ Proof.
     assert (Hdp : dom (Lst [Paren i' j x0; b]) = true) by (eapply dom_lst_in; [exact Hdl | left; reflexivity]);
     assert (Hwx : wok cExp x0) by (apply IH; [cbn [tsize fold_right] in Hsz; lia | assumption |
                                     apply (dom_paren i' j x0); eapply dom_lst_in; [exact Hdp | left; reflexivity]]);
-    assert (Hwb : wok cChunk b) by (apply IH; [cbn [tsize fold_right] in Hsz; lia | assumption | eapply dom_lst_in; [exact Hdp | right; left; reflexivity]])
+    assert (Hwb : wok cChunk b) by (apply IH; [cbn [tsize fold_right] in Hsz; lia | assumption | eapply dom_lst_in; [exact Hdp | right; left; reflexivity]]);
+    destruct (view_is_node _ x0 ltac:(eassumption)) as (vt & vs & ve & vsh & vfs & Evx)
   end.
-  match goal with H : shortelse _ _ _ |- _ => inversion H as [|ei eb Hei Heb|ei eb Hei]; subst end.
-  - start_case. walk_unfold. cbn [if_pairs]. open_views.
-    eapply emitsB_conv; [eapply emitsB_after; [apply moves_spaces; assumption|]; chain | codes_eq].
-  - assert (Hwb0 : wok cChunk eb).
+  match goal with H : shortelse _ _ _ |- _ => inversion H as [|ei eb Hei Heb|ei eb Hei Heb Hns]; subst end.
+  - (* no else *)
+    start_case. walk_unfold. cbn [if_pairs]. open_views.
+    eapply emitsB_conv; [eapply emitsB_after; [apply moves_spaces; assumption|]; chain;
+      eapply dropped_none; cbn [last]; rewrite Evx; reflexivity | codes_eq].
+  - (* else with statements *)
+    assert (Hwb0 : wok cChunk eb).
     { apply IH; [cbn [tsize fold_right] in Hsz; lia | assumption |].
       eapply (dom_lst_in [PNone; eb]); [eapply dom_lst_in; [exact Hdl | right; right; left; reflexivity] | right; left; reflexivity]. }
     start_case. walk_unfold. cbn [if_pairs]. open_views.
-    eapply emitsB_conv; [eapply emitsB_after; [apply moves_spaces; assumption|]; chain | codes_eq].
-  - cbn in Hne. discriminate Hne.
+    eapply emitsB_conv; [eapply emitsB_after; [apply moves_spaces; assumption|]; chain;
+      eapply dropped_skip; cbn [last]; reflexivity | codes_eq].
+  - (* else without statements: the parser dropped the pair, the writer finds the token *)
+    destruct (no_stats_semis eb Heb Hns) as (s1 & e1 & l1 & -> & Hsm & Hfree).
+    start_case. walk_unfold. cbn [if_pairs]. open_views.
+    match goal with H : TreeShape.span _ (Node tChunk _ _ _ _) _ _ |- _ => apply span_node_inv in H; destruct H as [-> H]; inv_spans; pos_facts; ok_facts end.
+    eapply emitsB_conv; [eapply emitsB_after; [apply moves_spaces; assumption|]; chain;
+      eapply dropped_else_ok; [cbn [last]; rewrite Evx; reflexivity | eassumption | lia | eassumption |];
+      eapply emitsB_seq; [leaf_step | eapply (movesL_exact _ e1); [|lia];
+        apply moves_semis; [assumption | exact Hsm | eassumption | lia | apply stopsemi_end; exact Hfree | lia]] |].
+    unfold lcodes. cbn [flat_map leaves app map]. rewrite ?app_nil_r. rewrite ?map_app. cbn [map app]. rewrite <- ?app_assoc. cbn [app]. reflexivity.
 Qed.
 
 End W.
